@@ -507,6 +507,12 @@ class Interp:
         for k in KINDS:
             if getattr(s, CAN[k])():
                 out.append(k)
+        if not out and s.status and self.cfg.get('unknown') \
+                and s.showdown_indices and not cards_known(
+                    s.hole_cards[s.showdown_indices[0]]):
+            # unknown face-down cards: the default query cannot say yes;
+            # the player tables explicit known cards (or mucks)
+            out.append('show_or_muck_hole_cards')
         return out
 
     # ---- one step ---------------------------------------------------------
@@ -526,7 +532,12 @@ class Interp:
         args = self._choose_args(kind)
         if self.hooks is not None:
             self.hooks.before(self, kind, args)
-        result = getattr(s, kind)(*args)
+        if self.cfg.get('commentary') and len(s.operations) % 3 == 0:
+            result = getattr(s, kind)(
+                *args, commentary=f'note {len(s.operations)}: {kind}',
+            )
+        else:
+            result = getattr(s, kind)(*args)
         self.steps.append((kind, args))
         if self.hooks is not None:
             self.hooks.after(self, kind, args, result)
@@ -778,6 +789,11 @@ class Interp:
             cnt = None
         else:
             cnt = min(m if m <= 3 else 2, cap)
+            if self.cfg.get('chip', 'int') in ('float', 'dec'):
+                b = s.starting_board_count
+                while (cnt * b) & (cnt * b - 1):
+                    cnt -= 1
+                    self._exclude('real_chips_division_by_3')
         if player is None:
             return (cnt,) if cnt is not None else ()
         return (cnt, player)
@@ -793,6 +809,8 @@ class Interp:
         s = self.state
         a = self.tape.next()
         i = s.showdown_index
+        if i is None and s.showdown_indices:
+            i = s.showdown_indices[0]
         hole = list(s.hole_cards[i]) if i is not None else []
         unknown = not cards_known(hole)
         m = a % 6
